@@ -81,3 +81,7 @@ mod ensure;
 mod matrix;
 mod query;
 mod subgraph;
+#[cfg(feature = "verif_hooks")]
+mod verif_hooks;
+#[cfg(feature = "verif_hooks")]
+pub use verif_hooks::VerifSnapshot;
